@@ -515,6 +515,14 @@ VARIANTS += [
                 dict(file=HAF, find="                let (value, _) = integer_add::<_, EightBitStep, 1>(\n                    agg_ctx.narrow(&AggregateReportsStep::AddV),", replace="                let (breakdown_key, _) = integer_add::<_, EightBitStep, 1>(\n                    agg_ctx.narrow(&AggregateReportsStep::AddV),")]),
     dict(prop="C01", name="second-early-return", expect="COLLECTIVE|ok-return-skips-prf+reshard",
          edits=[dict(file=HMF, find="    let sharded_reports = compute_prf_and_reshard(ctx.clone(), shuffled_input_rows).await?;", replace="    if shuffled_input_rows.len() < 2 {\n        return Ok(vec![Replicated::ZERO; B]);\n    }\n    let sharded_reports = compute_prf_and_reshard(ctx.clone(), shuffled_input_rows).await?;")]),
+    dict(prop="C01", name="empty-input-early-return-restored", expect="COLLECTIVE|ok-return-skips-shuffle",
+         edits=[dict(file=HMF, find='    // Apply DP padding for OPRF\n    let padded_input_rows = apply_dp_padding', replace='    if input_rows.is_empty() {\n        return Ok(vec![Replicated::ZERO; B]);\n    }\n\n    // Apply DP padding for OPRF\n    let padded_input_rows = apply_dp_padding')]),
+    dict(prop="C01", name="prf-stage-empty-returns-without-reshard", expect="COLLECTIVE|compute_prf_and_reshard:reshard:success-return-skips",
+         edits=[dict(file="ipa-core/src/protocol/hybrid/oprf.rs", find='        return reshard_try_stream(\n            ctx.narrow(&HybridStep::ReshardByPrf),\n            stream::iter(Vec::<Result<PrfHybridReport<BK, V>, Error>>::new()),\n            |ctx, _, report| report.match_key % ctx.shard_count(),\n        )\n        .await;\n', replace='        return Ok(Vec::new());\n')]),
+    dict(prop="C01", name="h1-shuffle-empty-shard-leaves", expect="COLLECTIVE|h1_shuffle_for_shard:step",
+         edits=[dict(file="ipa-core/src/protocol/ipa_prf/shuffle/sharded.rs", find='    // Generate X_1 = perm_12(left ⊕ right ⊕ z_12).\n    let x1: Vec<S::Share> = ctx\n        .narrow(&ShuffleStep::Permute12)\n        .mask_and_shuffle(\n            Direction::Right,\n            shares.into_iter().map(|share| share.left() + share.right()),\n        )\n        .await?;\n\n    // Generate X_2 = perm_31(X_1 ⊕ z_31) and reshard it using the randomness', replace='    // Generate X_1 = perm_12(left ⊕ right ⊕ z_12).\n    let shares = shares.into_iter();\n    if shares.len() == 0 {\n        return Ok((Vec::new(), IntermediateShuffleMessages::H1 { x1: Vec::new() }));\n    }\n    let x1: Vec<S::Share> = ctx\n        .narrow(&ShuffleStep::Permute12)\n        .mask_and_shuffle(\n            Direction::Right,\n            shares.map(|share| share.left() + share.right()),\n        )\n        .await?;\n\n    // Generate X_2 = perm_31(X_1 ⊕ z_31) and reshard it using the randomness')]),
+    dict(prop="C01", name="sharded-shuffle-empty-shard-leaves", expect="COLLECTIVE|malicious_sharded_shuffle:shuffle-for-shard:success-return-skips",
+         edits=[dict(file="ipa-core/src/protocol/ipa_prf/shuffle/malicious.rs", find='    let (shuffled_shares, messages) = match ctx.role() {\n        Role::H1 => h1_shuffle_for_shard(ctx.clone(), shares_and_tags).await,', replace='    if shares_and_tags.is_empty() {\n        return Ok(Vec::new());\n    }\n    let (shuffled_shares, messages) = match ctx.role() {\n        Role::H1 => h1_shuffle_for_shard(ctx.clone(), shares_and_tags).await,')]),
     dict(prop="C01", name="match-entry-arms-split", benign=True,
          edits=[dict(file=HAF, find="            Self::Pair { .. } | Self::MoreThanTwo => *self = Self::MoreThanTwo,", replace="            Self::Pair { .. } => *self = Self::MoreThanTwo,\n            Self::MoreThanTwo => {}")]),
 ]
@@ -629,6 +637,24 @@ VARIANTS += [
          edits=[dict(file=OSF, find="        if let Some(waker) = v {\n            waker.clone_from(cx.waker());\n        } else {\n            v.replace(cx.waker().clone());\n        }", replace="        v.replace(cx.waker().clone());")]),
     dict(prop="C14", name="add-waker-keeps-old", expect="SLOT-latest|add_waker",
          edits=[dict(file=URF, find="            if let Some(old) = self.wakers[index].as_mut() {\n                old.clone_from(waker);\n            } else {", replace="            if self.wakers[index].is_some() {\n                // already registered\n            } else {")]),
+    dict(prop="C14", name="overflow-refreshes-last-entry", cfg="N", expect="OVERFLOW-append|add_waker",
+         edits=[dict(file=URF, find='            #[cfg(feature = "stall-detection")]\n            let overflow = (waker.clone(), i);\n            #[cfg(not(feature = "stall-detection"))]\n            let overflow = waker.clone();\n            self.overflow_wakers.push(overflow);', replace='            #[cfg(feature = "stall-detection")]\n            if let Some((old, _)) = self.overflow_wakers.iter_mut().find(|(_, idx)| *idx == i) {\n                old.clone_from(waker);\n            } else {\n                self.overflow_wakers.push((waker.clone(), i));\n            }\n            #[cfg(not(feature = "stall-detection"))]\n            if let Some(old) = self.overflow_wakers.last_mut() {\n                old.clone_from(waker);\n            } else {\n                self.overflow_wakers.push(waker.clone());\n            }')]),
+    dict(prop="C14", name="overflow-refresh-keyed-by-index", benign=True,
+         edits=[dict(file=URF, find='            #[cfg(feature = "stall-detection")]\n            let overflow = (waker.clone(), i);\n            #[cfg(not(feature = "stall-detection"))]\n            let overflow = waker.clone();\n            self.overflow_wakers.push(overflow);', replace='            #[cfg(feature = "stall-detection")]\n            if let Some((old, _)) = self.overflow_wakers.iter_mut().find(|(_, idx)| *idx == i) {\n                old.clone_from(waker);\n            } else {\n                self.overflow_wakers.push((waker.clone(), i));\n            }\n            #[cfg(not(feature = "stall-detection"))]\n            self.overflow_wakers.push(waker.clone());')]),
+    dict(prop="C14", name="overflow-refresh-keyed-by-ge", expect="OVERFLOW-append|add_waker",
+         edits=[dict(file=URF, find='            #[cfg(feature = "stall-detection")]\n            let overflow = (waker.clone(), i);\n            #[cfg(not(feature = "stall-detection"))]\n            let overflow = waker.clone();\n            self.overflow_wakers.push(overflow);', replace='            #[cfg(feature = "stall-detection")]\n            if let Some((old, _)) = self.overflow_wakers.iter_mut().find(|(_, idx)| *idx >= i) {\n                old.clone_from(waker);\n            } else {\n                self.overflow_wakers.push((waker.clone(), i));\n            }\n            #[cfg(not(feature = "stall-detection"))]\n            self.overflow_wakers.push(waker.clone());')]),
+    dict(prop="C14", name="overflow-drain-skipped-when-slot-empty", expect="OVERFLOW-drain|wake_next:drain-depends-on-cursor-only",
+         edits=[dict(file=URF, find='        if let Some(w) = self.wakers[index].take() {\n            w.wake();\n        }\n        if self.next % (self.wakers.len() / 2) == 0 {', replace='        let Some(w) = self.wakers[index].take() else {\n            return;\n        };\n        w.wake();\n        if self.next % (self.wakers.len() / 2) == 0 {')]),
+    dict(prop="C14", name="overflow-drain-every-2len", expect="OVERFLOW-drain|wake_next:cadence-meets-every-window",
+         edits=[dict(file=URF, find='        if self.next % (self.wakers.len() / 2) == 0 {', replace='        if self.next % (self.wakers.len() * 2) == 0 {')]),
+    dict(prop="C14", name="overflow-drain-every-len", benign=True,
+         edits=[dict(file=URF, find='        if self.next % (self.wakers.len() / 2) == 0 {', replace='        if self.next % self.wakers.len() == 0 {')]),
+    dict(prop="C14", name="overflow-drain-every-step", benign=True,
+         edits=[dict(file=URF, find='        if self.next % (self.wakers.len() / 2) == 0 {', replace='        if !self.overflow_wakers.is_empty() {')]),
+    dict(prop="C14", name="overflow-drain-wakes-first-only", expect="OVERFLOW-drain|wake_next:wakes-every-parked-waker",
+         edits=[dict(file=URF, find='            for (w, _) in take(&mut self.overflow_wakers) {\n                w.wake();\n            }', replace='            for (w, _) in take(&mut self.overflow_wakers) {\n                w.wake();\n                break;\n            }'), dict(file=URF, find='            for w in take(&mut self.overflow_wakers) {\n                w.wake();\n            }', replace='            for w in take(&mut self.overflow_wakers) {\n                w.wake();\n                break;\n            }')]),
+    dict(prop="C14", name="overflow-drain-wakes-first-only-n", cfg="N", expect="OVERFLOW-drain|wake_next:wakes-every-parked-waker",
+         edits=[dict(file=URF, find='            for (w, _) in take(&mut self.overflow_wakers) {\n                w.wake();\n            }', replace='            for (w, _) in take(&mut self.overflow_wakers) {\n                w.wake();\n                break;\n            }'), dict(file=URF, find='            for w in take(&mut self.overflow_wakers) {\n                w.wake();\n            }', replace='            for w in take(&mut self.overflow_wakers) {\n                w.wake();\n                break;\n            }')]),
     dict(prop="C13", name="rendezvous-keeps-old-waker", expect="WAKE-latest|add_waker",
          edits=[dict(file=SCF, find="                StreamState::Waiting(old_waker) => {\n                    old_waker.clone_from(waker);\n                    None", replace="                StreamState::Waiting(_old_waker) => {\n                    None")]),
 ]
@@ -1055,3 +1081,9 @@ VARIANTS += [
     dict(prop="C20", name="identity-from-chain-element-zero", benign=True,
          edits=[dict(file=NS, find="                .and_then(<[_]>::first);", replace="                .and_then(|chain| chain.first());")]),
 ]
+
+# rules shared between properties: the same edit must be reported under the other property too
+VARIANTS += [dict(v, prop="C05", name=v["name"] + "@C05") for v in VARIANTS
+             if v["name"] in ("h1-shuffle-empty-shard-leaves", "sharded-shuffle-empty-shard-leaves")]
+VARIANTS += [dict(v, prop="C13", name=v["name"] + "@C13") for v in VARIANTS
+             if v["name"] in ("overflow-refreshes-last-entry", "overflow-drain-skipped-when-slot-empty", "overflow-drain-every-step")]
